@@ -1,6 +1,7 @@
 SPECIFICATION Spec
 CONSTANTS MaxRank = 3
  Quota = 2
+ Quota4R = 12
  Quota4 = 6
 INVARIANT WellFormedOK
 INVARIANT ShapeOK
